@@ -346,7 +346,7 @@ def run_shard(spec, ctx):
                                       coded_w_h_depth={c: list(lay[c]) for c in COMPONENTS}))
                  if seen[0] > 12 and seen[0] % 5 == 0 else None)
 
-    run_given(cases(real_ok=real_ok), body, ctx, ctx.pick(190, 8000))
+    run_given(cases(real_ok=real_ok), body, ctx, ctx.pick(190, 60000))
 
 
 def replay(data, col):
